@@ -1,4 +1,6 @@
 import AlgoVerif.Model.C08
+import AlgoVerif.Model.C08Aux
+import AlgoVerif.Model.C10Ext
 import AlgoVerif.Spec.C08
 /-!
 Line-protocol component for C08 (and the part of it C09 reuses).
@@ -9,7 +11,19 @@ A case is the grammar description (`terms …`, `nonterms …`, `start S`, `prod
 * `emptyfree | singlefree | unreachable | cycles | leftrec | leftfactor | cnf | cnfstart | cnfterm | cnfbin`
   → `ok <showGrammar of the Model's result>` | `panic` | `hang`;
 * `lang <op|id> <k>` → `ok <n> <w₁>|<w₂>|…`: the sentences of length ≤ k of the Model's result
-  (`langK`), sorted, words separated by spaces, `ε` for the empty sentence.
+  (`langK`), sorted, words separated by spaces, `ε` for the empty sentence;
+* the helpers the transformations rest on (`Model/C08Aux.lean`), on the described grammar:
+  `verify` → `ok valid` | `ok invalid [head:Z; no-prod:A; nonterm:Y; start; start-prod; term:z]` (sorted multiset);
+  `iscnf` → `ok true` | `ok false [p; q]`;  `symbols` → `ok [n:A n:S t:a]`;  `eq <op|id>` → `ok true|false` (`Equal` of the
+  grammar and the result);  `match <pred>` → `ok any=… all=… select=[p; q]` (`pred`: empty single leftrec binary termprod
+  true false head=A);  `order` → `ok terms=[a b] nonterms=[S A]` (`OrderTerminals`, `OrderNonTerminals`);
+  `orderprods` → `ok A: p | q; S: r` (`OrderProductionSet` per head, heads sorted);
+  `cmp sym X Y`, `cmp str α | β`, `cmp prod H : α | K : β` → `ok -1|0|1` (`CmpSymbol`, `CmpString`, `CmpProduction`);
+  `hash sym X`, `hash str α`, `hash prod H : α`, `hash term a`, `hash nonterm A` → `ok <uint64>`;
+  `write k : α` → `ok n=<bytes> err=true|false` (`WriteString` on a writer whose k-th `Write` takes half and fails);
+  `lcp α | β | …` → `ok <longest common prefix>` (`LongestCommonPrefixOf`; `lcp none`: of no strings);  `strops α | β` → `ok prefix=… suffix=… prepend=<β α> anyterm=…`
+  (`α.HasPrefix(β)`, `α.HasSuffix(β)`, `α.Prepend(β...)`, `α.AnyMatch(IsTerminal)`).
+  In arguments `'x` is the terminal `x`, `^Z` the non-terminal `Z` (declared or not), any other word a non-terminal iff declared.
 -/
 namespace AlgoVerif.C08.Driver
 open AlgoVerif AlgoVerif.Gram AlgoVerif.C08
@@ -24,10 +38,16 @@ def bare (t : String) : String :=
   | '\'' :: r => String.ofList r
   | _ => t
 
+/-- `^Z` is the non-terminal `Z`, declared or not; `'x` the terminal `x` -/
+def bareSym (t : String) : SSym :=
+  match t.toList with
+  | '^' :: r => .nonterm (String.ofList r)
+  | _ => .term (bare t)
+
 def unquote (g : G) : G :=
   { g with terms := g.terms.map bare,
            prods := g.prods.map fun p => { p with body := p.body.map fun s => match s with
-             | .term t => .term (bare t)
+             | .term t => bareSym t
              | .nonterm n => .nonterm n } }
 
 def requote (g : G) : G :=
@@ -48,8 +68,126 @@ def showLang (g : G) (k : Nat) : String :=
   let ws := sortDedup ((langK g k).map showSentence)
   s!"ok {ws.length} {"|".intercalate ws}"
 
+/-! ### the helper ops -/
+
+/-- a word of an op argument as a symbol of `g` (bare names) -/
+def argSym (g : G) (w : String) : SSym :=
+  match w.toList with
+  | '\'' :: r => .term (String.ofList r)
+  | '^' :: r => .nonterm (String.ofList r)
+  | _ => if g.nonterms.contains w then .nonterm w else .term w
+
+/-- split at the first `|` -/
+def splitBar (ws : List String) : List String × List String :=
+  (ws.takeWhile (· ≠ "|"), (ws.dropWhile (· ≠ "|")).drop 1)
+
+/-- the name of a terminal as the helper ops print it: `$` for the endmarker, quoted iff it is also the name of a
+declared non-terminal -/
+def tname (g : G) (t : String) : String :=
+  if t = Generated.grammar_endmarkerName then "$"   -- `Terminal.Name()` of the reserved endmarker
+  else if g.nonterms.contains t then "'" ++ t else t
+
+def showSymQ (g : G) : SSym → String
+  | .term t => tname g t
+  | .nonterm n => n
+
+def showBodyQ (g : G) (b : List SSym) : String :=
+  if b.isEmpty then "ε" else " ".intercalate (b.map (showSymQ g))
+
+def showProdQ (g : G) (p : SProd) : String :=
+  p.head ++ "→" ++ (if p.body.isEmpty then "ε" else " ".intercalate (p.body.map (showSymQ g)))
+
+def insertKeep (x : String) : List String → List String
+  | [] => [x]
+  | y :: ys => if x < y then x :: y :: ys else y :: insertKeep x ys
+
+def sortKeep (l : List String) : List String := l.foldl (fun acc x => insertKeep x acc) []
+
+def showVerifyErr (g : G) : AlgoVerif.C10.VerifyErr String String → String
+  | .startUndeclared => "start"
+  | .noStartProd => "start-prod"
+  | .noProd n => "no-prod:" ++ n
+  | .headUndeclared n => "head:" ++ n
+  | .termUndeclared t => "term:" ++ tname g t
+  | .nontermUndeclared n => "nonterm:" ++ n
+
+def showVerify (g : G) : String :=
+  match AlgoVerif.C10.verifyErrors g with
+  | [] => "ok valid"
+  | es => s!"ok invalid [{"; ".intercalate (sortKeep (es.map (showVerifyErr g)))}]"
+
+def showProds (g : G) (ps : List SProd) : String := "[" ++ "; ".intercalate (sortDedup (ps.map (showProdQ g))) ++ "]"
+
+def helperOp (g : G) (ws : List String) : Option String :=
+  match ws with
+  | ["verify"] => some (showVerify g)
+  | ["iscnf"] =>
+    match cnfErrors g with
+    | [] => some "ok true"
+    | es => some ("ok false " ++ showProds g es)
+  | ["symbols"] =>
+    some ("ok [" ++ " ".intercalate (sortDedup ((symbols g).map fun s => match s with
+      | .term t => "t:" ++ tname g t
+      | .nonterm n => "n:" ++ n)) ++ "]")
+  | ["eq", op] =>
+    match applyOp op g with
+    | some (.ok g') => some ("ok " ++ showBool (equalG g g'))
+    | some .panic => some "panic"
+    | some .diverge => some "hang"
+    | none => none
+  | ["match", pred] =>
+    (namedPred pred).map fun f =>
+      s!"ok any={showBool (g.prods.any f)} all={showBool (g.prods.all f)} select={showProds g (g.prods.filter f)}"
+  | ["order"] =>
+    match orderNT g with
+    | .ok nts => some s!"ok terms=[{" ".intercalate ((orderT g).map (tname g))}] nonterms=[{" ".intercalate nts}]"
+    | .panic => some "panic"
+    | .diverge => some "hang"
+  | ["orderprods"] =>
+    let heads := sortDedup (g.prods.map (·.head))
+    some ("ok " ++ "; ".intercalate (heads.map fun A =>
+      A ++ ": " ++ " | ".intercalate ((sortBy prodLt (prodsOf g.prods A)).map (showProdQ g))))
+  | ["cmp", "sym", x, y] => some s!"ok {cmpSymbol (argSym g x) (argSym g y)}"
+  | "cmp" :: "str" :: rest =>
+    let (l, r) := splitBar rest
+    some s!"ok {cmpBody (l.map (argSym g)) (r.map (argSym g))}"
+  | "cmp" :: "prod" :: rest =>
+    let (l, r) := splitBar rest
+    match l, r with
+    | h :: ":" :: lb, k :: ":" :: rb =>
+      some s!"ok {cmpProd ⟨h, lb.map (argSym g)⟩ ⟨k, rb.map (argSym g)⟩}"
+    | _, _ => none
+  | ["hash", "sym", x] => some s!"ok {hashSymbol (argSym g x)}"
+  | "hash" :: "str" :: b => some s!"ok {hashBody (b.map (argSym g))}"
+  | "hash" :: "prod" :: h :: ":" :: b => some s!"ok {hashProd ⟨h, b.map (argSym g)⟩}"
+  | ["hash", "term", t] => some s!"ok {hashName (bare t)}"
+  | ["hash", "nonterm", n] => some s!"ok {hashName n}"
+  | ["lcp", "none"] => some ("ok " ++ showBodyQ g (longestCommonPrefix []))   -- `LongestCommonPrefixOf()` of no strings
+  | "lcp" :: rest =>
+    let rec splitAll (ws : List String) (fuel : Nat) : List (List String) :=
+      match fuel with
+      | 0 => [ws]
+      | fuel + 1 => if ws.contains "|" then (splitBar ws).1 :: splitAll (splitBar ws).2 fuel else [ws]
+    let bodies := (splitAll rest rest.length).map fun b => b.map (argSym g)
+    let r := longestCommonPrefix bodies
+    some ("ok " ++ showBodyQ g r)
+  | "strops" :: rest =>
+    let (l, r) := splitBar rest
+    let a := l.map (argSym g)
+    let b := r.map (argSym g)
+    let pre := b ++ a
+    some s!"ok prefix={showBool (hasPrefix a b)} suffix={showBool (hasSuffix a b)} prepend={if pre.isEmpty then "ε" else " ".intercalate (pre.map (showSymQ g))} anyterm={showBool (a.any fun s => !isNT s)}"
+  | "write" :: k :: ":" :: b =>
+    k.toNat?.map fun k =>
+      let r := writeString k (b.map (argSym g)) 0 0
+      s!"ok n={r.1} err={showBool r.2}"
+  | _ => none
+
 /-- ops shared by the C08 and C09 drivers; `none` = not one of them -/
 def commonOp (g : G) (ws : List String) : Option String :=
+  match helperOp g ws with
+  | some s => some s
+  | none =>
   match ws with
   | [op] => (applyOp op g).map showOutcome
   | ["lang", op, k] =>
